@@ -49,22 +49,28 @@ Definition geo_int_contract {L Rr} (lbox : L -> bbox) (rrbox : Rr -> bbox)
 Definition rsel_contract {Rr} (rrbox : Rr -> bbox) (rsel : bbox -> list Rr -> list Rr) : Prop :=
   forall q rs, Permutation (rsel q rs) (filter (fun r => box_hit q (rrbox r)) rs).
 
-(* ---- C09: Dask's set_index + repartition as an oracle.
-   [shuffle key n parts]: the partitions of
-   ddf.set_index(key column, npartitions=n) (.repartition(npartitions=n)) *)
-Section ShuffleContract.
-  Variable R : Type.
-  Variable K : Type.
-  Variable kle : K -> K -> Prop.
-  Variable shuffle : (R -> K) -> nat -> list (list R) -> list (list R).
+(* ---- C09: Dask's set_index and repartition as oracles (the repo calls them, the
+   check exercises them on the real Dask; nothing is proved about the shuffle) *)
+Section PackContracts.
+  Variable A : Type.
+  (* ddf.set_index(key column, npartitions=n) *)
+  Variable set_index : (A -> N) -> N -> list (list A) -> list (list A).
+  (* ddf.repartition(npartitions=n) *)
+  Variable repartition : N -> list (list A) -> list (list A).
+
+  (* keys non-decreasing within every partition and from each partition to the next *)
+  Definition keys_sorted (key : A -> N) (l : list A) : Prop :=
+    Sorted (fun a b => (key a <= key b)%N) l.
 
   (* no row lost, duplicated or altered *)
-  Definition shuffle_perm : Prop :=
-    forall key n parts, Permutation (concat (shuffle key n parts)) (concat parts).
-  (* keys non-decreasing within every partition and from each partition to the next *)
-  Definition shuffle_sorted : Prop :=
-    forall key n parts, Sorted (fun a b => kle (key a) (key b)) (concat (shuffle key n parts)).
-  (* the requested number of partitions *)
-  Definition shuffle_count : Prop :=
-    forall key n parts, length (shuffle key n parts) = n.
-End ShuffleContract.
+  Definition set_index_perm : Prop :=
+    forall key n parts, Permutation (concat (set_index key n parts)) (concat parts).
+  Definition set_index_sorted : Prop :=
+    forall key n parts, keys_sorted key (concat (set_index key n parts)).
+  (* repartition keeps the rows in their order *)
+  Definition repartition_keeps : Prop :=
+    forall n parts, concat (repartition n parts) = concat parts.
+  (* ... and delivers the requested number of partitions *)
+  Definition repartition_count : Prop :=
+    forall n parts, N.of_nat (length (repartition n parts)) = n.
+End PackContracts.
